@@ -249,7 +249,7 @@ def run(R):
     from sigpyproc import header, readers
     quick = c07.common_setup(R)
     R.encode(header.Header.new_header, readers.FilReader.read_block)
-    chans = CHANS[:2] if quick else CHANS
+    chans = [CHANS[0], CHANS[2]] if quick else CHANS
     R.bounds["channelisations"] = [list(c) for c in chans]
     R.bounds["read_block_fch1"] = "k symbolic in [0,4096] (16-bit bit-vector -> IEEE double), channelisation from the list above"
     R.assume("Header.new_header applies the update dictionary it is given (recorded, not re-implemented)",
